@@ -950,5 +950,50 @@ theorem fanEmpty_check_sound {R : Type} [CommRing R] [LinearOrder R] [IsStrictOr
 
 example : fanPositiveOk exP 3 = true ∧ fanEmptyOk exP 3 = true := by decide
 
+/-! ### towards `FanPositive`: the two-circle lemma -/
+
+section TwoCircle
+variable {R : Type} [CommRing R] [LinearOrder R] [IsStrictOrderedRing R]
+
+omit [LinearOrder R] [IsStrictOrderedRing R] in
+/-- Grassmann–Plücker relation between the in-circle determinants and orientations of five points with a common
+    chord `a b` -/
+theorem two_circle_identity (a b c q p : Pt R) :
+    orient a b c * inCircleDet b a q p =
+      inCircleDet b a q c * orient a b p - inCircleDet a b c p * orient a b q := by
+  simp only [inCircleDet, orient]; ring
+
+/-- **two_circle**: let `T = (a,b,c)` and `T' = (b,a,q)` be clockwise triangles on the two sides of the edge `a b`,
+    locally Delaunay (`c` not strictly inside the circumcircle of `T'`).  A point `p` strictly inside the circumcircle
+    of `T` that is NOT strictly on `T`'s side of the edge is strictly inside the circumcircle of `T'`. -/
+theorem two_circle (a b c q p : Pt R) (hT : orient a b c < 0) (hT' : orient b a q < 0)
+    (hloc : ¬ inCircleDet b a q c < 0) (hin : inCircleDet a b c p < 0) (hp : ¬ orient a b p < 0) :
+    inCircleDet b a q p < 0 := by
+  have hq : 0 < orient a b q := by
+    have : orient b a q = - orient a b q := by simp only [orient]; ring
+    linarith
+  have hid := two_circle_identity a b c q p
+  have hpos : 0 < inCircleDet b a q c * orient a b p - inCircleDet a b c p * orient a b q := by
+    have h1 : 0 ≤ inCircleDet b a q c * orient a b p := mul_nonneg (not_lt.mp hloc) (not_lt.mp hp)
+    have h2 : inCircleDet a b c p * orient a b q < 0 := mul_neg_of_neg_of_pos hin hq
+    linarith
+  by_contra hcon
+  have : orient a b c * inCircleDet b a q p ≤ 0 := mul_nonpos_of_nonpos_of_nonneg hT.le (not_lt.mp hcon)
+  linarith
+
+/-- the geometric content of `FanPositive` at one boundary edge: if the bad triangle `T = (a,b,c)` has, across its edge
+    `a b`, a clockwise neighbour `T' = (b,a,q)` that is NOT bad, and the pair is locally Delaunay, then the inserted
+    point is strictly on `T`'s side of the directed edge `a b`. -/
+theorem boundary_edge_inner (a b c q p : Pt R) (hT : orient a b c < 0) (hT' : orient b a q < 0)
+    (hloc : ¬ inCircleDet b a q c < 0) (hbad : inCircleDet a b c p < 0) (hnb : ¬ inCircleDet b a q p < 0) :
+    orient a b p < 0 := by
+  by_contra hp
+  exact hnb (two_circle a b c q p hT hT' hloc hbad hp)
+
+example : orient ((0 : ℤ), (0 : ℤ)) (0, 2) (2, 0) < 0 ∧ orient ((0 : ℤ), (2 : ℤ)) (0, 0) (-3, 1) < 0 ∧
+    ¬ inCircleDet ((0 : ℤ), (2 : ℤ)) (0, 0) (-3, 1) (2, 0) < 0 ∧ inCircleDet ((0 : ℤ), (0 : ℤ)) (0, 2) (2, 0) (1, 1) < 0 ∧
+    ¬ inCircleDet ((0 : ℤ), (2 : ℤ)) (0, 0) (-3, 1) (1, 1) < 0 := by decide
+end TwoCircle
+
 end C20
 end PolyVerif
